@@ -177,6 +177,7 @@ Proof.
     destruct H2 as [E H2]. cbn [fst snd] in E, H2. injection E as <- <- <-.
     pose proof (advance_sim wb _ _ H2) as H3.
     destruct (advance wb a2) as [a3|e1], (advance wb b2) as [b3|e2]; cbn [rsim] in H3; try contradiction; [|exact I].
+    destruct (String.eqb (text (cur a)) "{" && negb (keys_hashable ps1)); [exact I|].
     cbn [rsim]. split; [reflexivity | exact H3].
   - assert (Hc' : closer (text (cur b)) = None) by (rewrite <- (proj2 (cur_teq _ _ H)); exact Hc).
     cbn [parse_value]. rewrite Hc, Hc'.
